@@ -1,7 +1,7 @@
 from common import COMMON_TB
 
 CONFIG = {
-    "lean_modules": ["SA.Props.C13"],
+    "lean_modules": ["SA.Props.C13", "SA.Props.C13Streams"],
     "level_text": "Proved in Lean over every history of messages (any name/type/source address, any total codec behaviour: hypothesis Codec.Total, see C12), application-side "
                   "Close/Write calls, clock advances and runs of the pruning task: C13_reachable_invariant + C13_ids_distinct (live slot i holds a "
                   "session with id i; no session in two live slots), C13_open_returns_free_id (for EVERY state, codec and message: an answer v:OK:uid "
@@ -18,11 +18,24 @@ CONFIG = {
                   "one whose id and address were re-used), C13_unrelated_expiry_harmless (a live session heard within ConnectionTimeout survives "
                   "the pruning task after any open/close/expire/reopen history; the task is interpreted from the assignment lists regenerated "
                   "from the source, C13_expiry_loops_safe) and the kernel-checked counter-example C13_witness_old_expiry for the unfixed lists. "
+                  "Byte streams (SA.Props.C13Streams): C13_session_queues_own_trace (after any history the InQueue/OutQueue of a session object is "
+                  "the fold of packet()/Write over exactly the packet requests that carried its identifier, came from its owner address and were "
+                  "processed while it was live, plus the application's Writes on it - frame proved through every handler, newUser, closeConnection, "
+                  "the pruning task), C13_answers_own_trace (the answers to those requests are packet()'s answer from the same fold, or dropped), "
+                  "C13_stream_bytes_provenance (peer arbitrary: released bytes = concatenation of payloads of those requests, queued chunks = chunks "
+                  "of Writes on that object), C13_session_refines_queue_endpoint (the session's queue operations ARE the server end of C07's "
+                  "two-endpoint model with the regenerated facts: simulation relation through Append incl. future list / window loop / cache trimming, "
+                  "UpdateAcked, cleanAckedChunks, NextChunk, the chunking loop) and the composition C13_streams_only_own_peer: when the owner's requests "
+                  "for the session are those of a C07 client (any well-bounded history: losses, duplicates, replays), bytes released at the session "
+                  "are a prefix of the client's accepted bytes and bytes released at the client a prefix of what the application wrote to that "
+                  "session's object (equal once the out-queue is empty), whatever the rest of the multi-session history does. "
                   "The model is tied to the real ServerDnsListener by running both on the same histories and comparing every answer and the "
                   "session tables / queues / options of every session object.",
-    "level_note": "Partial: 'each session's byte streams contain only its own peer's data' is proved at the level of which packets reach "
-                  "which session's queue (only packets that passed validateAndGetUser for that id from the owner address); the queue "
-                  "arithmetic itself (C07) and the codecs (C08) are outside. Address = the string the communicator reports (two clients behind one "
+    "level_note": "'Each session's byte streams contain only its own peer's data' is now proved down to the bytes in the queues and composed with C07 "
+                  "(hypotheses: Codec.Total and Codec.Bytes = the decoders return []byte; for the prefix statement the owner's requests form a C07 "
+                  "client history with fresh sequence numbers 0/0, one fragment size, no application Read at the server end - the C13 model has no "
+                  "Read op, its in-buffer is everything ever released; a Write issued while chunks are still queued is outside C07's sequential-writer "
+                  "model). Still outside: the codecs themselves (C08) - a body is what the session's own codec decodes it to. Address = the string the communicator reports (two clients behind one "
                   "resolver share it). The pruning goroutine cannot be called: its two loops are tied by extracted shape facts (range table, timeout, "
                   "assignment list) plus one real-time history in the thorough tier (dnsexpire, ~75 s, timeouts shortened through the package variables). "
                   "Concurrent handler invocations are not modelled (histories are sequential; the real handlers take usersLock only in newUser/closeConnection). "
